@@ -112,9 +112,10 @@ def run_soak(tmp, seed, nproc, ncases, tier):
     return lines, races, stats, crashes
 
 
-def soak_extra(run):
+def soak_extra(run, hangs_only=False):
+    """hangs_only (C17): only commands / requests that do not return (bounded timeouts everywhere) are reported"""
     # ---- static diagnostics over the regenerated tables
-    ung, blk, err = facts_report()
+    ung, blk, err = ([], [], '') if hangs_only else facts_report()
     static_unknown = []
     if err:
         static_unknown.append(('facts', err))
@@ -145,6 +146,8 @@ def soak_extra(run):
     dyn_known = set()
     dynamic_hits = []
     for op, out in lines:
+        if hangs_only and 'HANG' not in out and 'missing' not in out:
+            continue
         if out != 'soak ok' and shown < 3:
             shown += 1
             rp = run.write_replay(f'soak-{shown}', {'property': run.pid, 'engine': 'soak', 'op': op, 'implementation': out, 'model': 'soak ok',
@@ -152,11 +155,11 @@ def soak_extra(run):
                                                     'hang_dump': os.path.join(BUILD, 'tmp', 'verif-soak-hang.txt') if 'HANG' in out else None})
             run.violations.append((f'engine soak: {out[:160]}', rp, True))
             dynamic_hits.append(out)
-    for c in crashes[:2]:
+    for c in ([] if hangs_only else crashes[:2]):
         rp = run.write_replay(f'soak-crash-{len(run.violations)}', {'property': run.pid, 'engine': 'soak', 'crash': c})
         run.violations.append(('engine soak: the process crashed: ' + c.split('\n')[0][:160], rp, True))
         dynamic_hits.append(c)
-    for r in races:
+    for r in ([] if hangs_only else races):
         if r['sig'] in seen_sig:
             continue
         seen_sig.add(r['sig'])
